@@ -351,6 +351,19 @@ fn answer_inner(line: &str) -> String {
                 Err(e) => li_err(&e).to_string(),
             }
         }
+        "dirv" => {
+            // the direction of an identifier and of the same identifier carrying variants
+            let v = arg!(0);
+            match LanguageIdentifier::from_bytes(&v) {
+                Ok(mut li) => {
+                    let d1 = li.character_direction();
+                    li.set_variants(&[Variant::from_bytes(b"1996").unwrap(), Variant::from_bytes(b"macos").unwrap()]);
+                    let d2 = li.character_direction();
+                    format!("ok {:?} {:?}", d1, d2)
+                }
+                Err(e) => li_err(&e).to_string(),
+            }
+        }
         "locdir" => {
             let v = arg!(0);
             match Locale::from_bytes(&v) {
